@@ -307,7 +307,8 @@ def baseline_base(rng, explicit: bool) -> dict:
     job = rng.choice(JOBS[:6])
     kw = dict(tier=rng.choice(TIERS[:2]), union_block_count=rng.randint(20, 40), artifact_level=rng.randint(20, 45),
               jobtype=JobType(job), level=rng.randint(260, 285), passive_skill_level=rng.choice([0, 1]),
-              combat_orders_level=rng.choice([1, 2]))
+              combat_orders_level=rng.choice([1, 2]), propensity_level=rng.choice([100, 100, rng.randint(0, 100)]),
+              link_count=rng.choice([13, rng.randint(6, 13)]))
     if explicit:
         kw.update(armor=rng.randint(100, 380), mob_level=rng.randint(250, 285), hexa_skill_level=rng.randint(1, 20),
                   weapon_attack_power=rng.randint(0, 500), weapon_pure_attack_power=rng.randint(0, 300))
@@ -353,8 +354,42 @@ class History:
         return out
 
 
+def key_collisions(kind: str, base: dict, fields, rng, profile_names, tries: int = 10) -> list:
+    """(field, value) pairs whose one-field change of `base` leaves get_memoization_key() EQUAL: the candidates for
+    two different characters sharing one memo entry (cheap: no environment is computed).  Whether the characters
+    really differ is decided afterwards by the requests themselves."""
+    out = []
+    try:
+        k0 = jnorm(build(kind, base).get_memoization_key())
+    except Exception:  # noqa: BLE001
+        return out
+    for f in fields:
+        seen = []
+        cands = []
+        if isinstance(base.get(f), int) and not isinstance(base.get(f), bool):
+            cands = [base[f] + d for d in (5, -5, 1, -1, 2, -2, 3, -3, 4, -4, 10, -10) if base[f] + d >= 0]
+        for _ in range(tries):
+            v = alt_value(kind, f, base, rng, profile_names)
+            if v is not None:
+                cands.append(v)
+        for v in cands:
+            if v in seen:
+                continue
+            seen.append(v)
+            var = dict(base)
+            var[f] = v
+            try:
+                k1 = jnorm(build(kind, var).get_memoization_key())
+            except Exception:  # noqa: BLE001
+                continue
+            if k1 == k0:
+                out.append((f, v))
+                break
+    return out
+
+
 def standard_history(hid, kind, base, star_fields, chain_fields, rng, profile_names, first_handles,
-                     extra_after_import=True, chain_handles=None) -> History:
+                     extra_after_import=True, chain_handles=None, forced=None) -> History:
     """new memoizers -> star (base, base[f], base, ...) -> chain (cumulative one-field changes) -> export, json
     save, load, re-import (alias and copy; the file memoizer's own file imported into an in-memory memoizer)
     -> restart -> file memoizers on the old file and on the exported json, in-memory memoizers on the loaded
@@ -378,7 +413,9 @@ def standard_history(hid, kind, base, star_fields, chain_fields, rng, profile_na
 
     ask(base, mode="base", field=None)
     for f in star_fields:
-        v = alt_value(kind, f, base, rng, profile_names)
+        v = (forced or {}).get(f)
+        if v is None:
+            v = alt_value(kind, f, base, rng, profile_names)
         if v is None:
             continue
         var = dict(base)
@@ -559,15 +596,21 @@ def main(ck):
 
     # ------------------------------------------------------------------ histories (pure data)
     hists: list[History] = []
+    key_collision_candidates = {k: [] for k in KINDS}
     n_min = 3 if quick else 12
     for i in range(n_min):
         base = minimal_base(rng, explicit=(i % 2 == 1), profile_names=profile_names)
         fields = list(CL[KINDS[0]].model_fields)
-        star = suspicious[KINDS[0]] + [f for f in rng.sample(fields, len(fields)) if f not in suspicious[KINDS[0]]]
+        mreads = py_facts["specs"][KINDS[0]]["memoReads"] if py_facts else fields
+        coll = key_collisions(KINDS[0], base, [f for f in fields if f in mreads], rng, profile_names)
+        key_collision_candidates[KINDS[0]] += [f"{f}={v!r}" for f, v in coll]
+        star = [f for f, _ in coll] + suspicious[KINDS[0]] + [f for f in rng.sample(fields, len(fields)) if f not in suspicious[KINDS[0]]]
+        star = list(dict.fromkeys(star))
         chain = rng.sample(fields, len(fields))
         # keep the job fixed while explicit names are set: change jobtype first in the chain
         chain.sort(key=lambda f: f != "jobtype")
-        hists.append(standard_history(f"min{i}", KINDS[0], base, star, chain, rng, profile_names, ("inmem", "file")))
+        hists.append(standard_history(f"min{i}", KINDS[0], base, star, chain, rng, profile_names, ("inmem", "file"),
+                                      forced=dict(coll)))
     bfields = list(CL[KINDS[1]].model_fields)
     bspec_reads = (py_facts["specs"][KINDS[1]]["memoReads"] if py_facts else bfields[:10])
     bspec_excl = (py_facts["specs"][KINDS[1]]["keyExclude"] if py_facts else bfields[10:])
@@ -575,9 +618,12 @@ def main(ck):
         base = baseline_base(rng, explicit=False)
         memo_pick = [f for f in bfields if f in bspec_reads and f not in suspicious[KINDS[1]]]
         excl_pick = [f for f in bfields if f in bspec_excl and f not in suspicious[KINDS[1]]]
-        star = suspicious[KINDS[1]][:3] + rng.sample(excl_pick, min(2, len(excl_pick))) + rng.sample(memo_pick, 1)
+        coll = key_collisions(KINDS[1], base, [f for f in bfields if f in bspec_reads], rng, profile_names)
+        key_collision_candidates[KINDS[1]] += [f"{f}={v!r}" for f, v in coll]
+        star = [f for f, _ in coll][:3] + suspicious[KINDS[1]][:3] + rng.sample(excl_pick, min(2, len(excl_pick))) + rng.sample(memo_pick, 1)
+        star = list(dict.fromkeys(star))
         hists.append(standard_history("base0", KINDS[1], base, star, [], rng, profile_names, ("inmem",),
-                                      extra_after_import=False))
+                                      extra_after_import=False, forced=dict(coll)))
     else:
         for i in range(3):
             # base0: every field through an in-memory memoizer + a cumulative chain over every field through a
@@ -585,12 +631,15 @@ def main(ck):
             # both kinds in lock step
             base = baseline_base(rng, explicit=(i >= 1))
             order = rng.sample(bfields, len(bfields))
-            star = suspicious[KINDS[1]] + [f for f in (order if i < 2 else order[:12]) if f not in suspicious[KINDS[1]]]
+            coll = key_collisions(KINDS[1], base, [f for f in bfields if f in bspec_reads], rng, profile_names)
+            key_collision_candidates[KINDS[1]] += [f"{f}={v!r}" for f, v in coll]
+            star = [f for f, _ in coll] + suspicious[KINDS[1]] + [f for f in (order if i < 2 else order[:12]) if f not in suspicious[KINDS[1]]]
+            star = list(dict.fromkeys(star))
             chain = rng.sample(bfields, len(bfields)) if i == 0 else []
             chain.sort(key=lambda f: f != "jobtype")
             hists.append(standard_history(f"base{i}", KINDS[1], base, star, chain, rng, profile_names,
                                           [("inmem",), ("file",), ("inmem", "file")][i], extra_after_import=False,
-                                          chain_handles=("file",)))
+                                          chain_handles=("file",), forced=dict(coll)))
 
     # ------------------------------------------------------------------ real code: segment 1 in fresh processes
     for h in hists:
@@ -937,6 +986,7 @@ def main(ck):
         "per_phase": per_mode,
         "fields_exercised": {k: sorted(v) for k, v in per_field.items()},
         "fields_declared": {k: len(CL[k].model_fields) for k in KINDS},
+        "key_collision_candidates_probed_first": key_collision_candidates,
         "per_field_hit_miss": per_field,
         "model_vs_code_points": corr_points,
         "model_vs_code_disagreements": corr_bad,
